@@ -127,3 +127,130 @@ Qed.
 
 Lemma owned_same w w' : w_models w' = w_models w -> w_files w' = w_files w -> FilesOwned w -> FilesOwned w'.
 Proof. intros M F O m x f Hx Hf. unfold model_b in Hx. rewrite M in Hx. rewrite F. eapply O; eauto. Qed.
+
+(* ====================================================================== (b) the steps of the extended alphabet *)
+Definition pending2 (o : op2) : bool :=
+  match o with OpLoad _ _ _ _ | OpDuplicate _ => true | _ => false end.
+
+Section Op2.
+Variable T : tables.
+Variable tab_el tab_at tab_en : nametab.
+Variable check_fn : N -> list N -> res bool.
+Variable float_parse : list N -> option N.
+Variable float_fmt : N -> list N.
+Variable LATEST name_index name_definition_ref attr_schema_location : N.
+Variable root_attrs : list (N * cdata).
+
+Notation run2 := (run_op2 T tab_el tab_at tab_en check_fn float_parse float_fmt LATEST name_index name_definition_ref
+                          attr_schema_location root_attrs).
+
+Definition step_ok2 (w : world) (o : op2) : bool :=
+  match o with
+  | Op1 o1 => step_ok_owned T tab_el tab_en check_fn LATEST root_attrs w o1
+  | _ => negb (pending2 o)
+  end.
+
+Lemma world_rel_inv w w' : world_rel T w w' -> TreeInv w -> FilesInv T w -> FilesOwned w ->
+  TreeInv w' /\ FilesInv T w' /\ FilesOwned w'.
+Proof.
+  intros WR (C & NO) FI FO. pose proof (world_rel_ptree T w w' WR) as PT. split; [|split].
+  - split; [eapply Core_ptree; eauto | eapply NoOrphan_ptree; eauto].
+  - eapply filesinv_eqv; eauto. eapply world_rel_eqv; eauto.
+  - destruct WR as (_ & F & M & _). eapply owned_same; eauto.
+Qed.
+
+Theorem step2_inv o w r w' :
+  TreeInv w -> FilesInv T w -> FilesOwned w -> step_ok2 w o = true ->
+  run2 o w = Val (r, w') -> TreeInv w' /\ FilesInv T w' /\ FilesOwned w'.
+Proof.
+  intros TI FI FO Hok H. pose proof TI as (C & NO).
+  destruct o; cbn [step_ok2 pending2 negb] in Hok; try discriminate Hok; cbn [run_op2] in H.
+  - (* Op1 *)
+    apply wmap_inv in H as (r0 & H & _). unfold step_ok_owned in Hok.
+    apply Bool.andb_true_iff in Hok as (Hs & H3). apply Bool.andb_true_iff in Hs as (H1 & H2).
+    apply Bool.negb_true_iff in H1, H2, H3.
+    destruct (inv_step_owned_all T tab_el tab_en check_fn LATEST root_attrs o w r0 w' TI FI FO H2 H3 H) as (FI' & FO').
+    split; auto. apply (tree_step_all T tab_el tab_en check_fn LATEST root_attrs o w r0 w' TI H1 H).
+  - (* sort *)
+    apply wmap_inv in H as (r0 & H & _). unfold e_sort in H.
+    apply (e_sort_frame T tab_el tab_at tab_en name_index name_definition_ref isort_poly StableSort_isort) in H as (_ & WR).
+    apply (world_rel_inv w w' WR); auto.
+  - (* sort model *)
+    apply wmap_inv in H as (r0 & H & _). unfold m_sort in H.
+    apply (m_sort_frame T tab_el tab_at tab_en name_index name_definition_ref isort_poly StableSort_isort) in H as (_ & WR).
+    apply (world_rel_inv w w' WR); auto.
+  - (* set_version *)
+    apply wmap_inv in H as (r0 & H & _). unfold f_set_version in H.
+    apply wbind_inv in H as [([errs mask] & w1 & H1 & H) | (e0 & H1 & _)].
+    2:{ unfold f_check_version_compatibility in H1. destruct (f_check T w f v); discriminate. }
+    unfold f_check_version_compatibility in H1. destruct (f_check T w f v); try discriminate. injection H1 as _ <-.
+    destruct (is_empty errs); [|apply wfail_inv in H as (_ & ->); auto].
+    apply wbind_inv in H as [(x & w1 & H1 & H) | (e0 & H1 & _)]; [|apply get_file_inv in H1 as (? & _ & [=] & _)].
+    apply get_file_inv in H1 as (x' & Hx & [= <-] & ->).
+    pose proof (stp_set_file _ _ _ _ _ H) as ST. unfold set_file in H. injection H as _ <-.
+    split; [eapply TreeInv_same_tree; eauto|]. split.
+    + eapply filesinv_eqv; eauto. split; [reflexivity|]. intros i. cbn. destruct (w_nodes w i); auto.
+      repeat split; auto.
+    + intros m0 x0 f0 Hx0 Hf0. unfold model_b in Hx0. cbn in Hx0 |- *.
+      destruct (FO m0 x0 f0 Hx0 Hf0) as (fl & Hfl & Hm).
+      rewrite nth_opt_error, nth_error_list_set. rewrite nth_opt_error in Hfl, Hx.
+      destruct (Nat.eqb (N.to_nat f0) (N.to_nat f)) eqn:E.
+      * apply Nat.eqb_eq in E. rewrite E in *. rewrite Hfl. eexists. split; [reflexivity|]. cbn. congruence.
+      * exists fl. auto.
+  - (* check_version_compatibility *)
+    apply wbind_inv in H as [(a & w1 & H1 & H2) | (e & H1 & _)];
+      unfold f_check_version_compatibility in H1; destruct (f_check T w f v); try discriminate.
+    injection H1 as _ <-. destruct a. apply wret_inv in H2 as (_ & ->). auto.
+  - (* serialize file *)
+    apply wmap_inv in H as (r0 & H & _). unfold f_serialize in H.
+    apply wbind_inv in H as [(fl & w1 & H1 & H) | (e0 & H1 & _)]; [|apply get_file_inv in H1 as (? & _ & [=] & _)].
+    apply get_file_inv in H1 as (fl' & Hfl & [= <-] & ->).
+    apply wbind_inv in H as [(x & w1 & H1 & H) | (e0 & H1 & _)]; [|apply get_model_inv in H1 as (? & _ & [=] & _)].
+    apply get_model_inv in H1 as (x' & Hx & [= <-] & ->).
+    apply wbind_inv in H as [([loc files] & w1 & H1 & H) | (e0 & H1 & _)].
+    2:{ assert (w' = w) as -> by (refine ((_ : ro (file_membership (m_root x))) _ _ _ H1); ro_tac). auto. }
+    assert (w1 = w) as -> by (refine ((_ : ro (file_membership (m_root x))) _ _ _ H1); ro_tac).
+    destruct (negb (set_mem f files)); [apply wfail_inv in H as (_ & ->); auto|].
+    apply wbind_inv in H as [(fname & w1 & H2 & H) | (e0 & H2 & _)]; [|apply wlift_inv in H2 as (? & _ & [=] & _)].
+    apply wlift_inv in H2 as (a & _ & _ & ->).
+    apply wbind_inv in H as [(u & w1 & H2 & H) | (e0 & H2 & _)]; [|apply wtry_inv in H2 as (? & _ & [=])].
+    apply wtry_inv in H2 as (r1 & H2 & _).
+    assert (w' = w1) as -> by (destruct (ser_heap _ _ _ _ _ _ _ _ _ _ _) in H; try discriminate; injection H as _ <-; reflexivity).
+    pose proof (stp_raw_set_attribute T check_fn _ _ _ _ _ _ _ H2) as ST.
+    assert (TreeInv w1) as TI1 by (eapply TreeInv_same_tree; eauto).
+    destruct (ff_raw_set_attribute T check_fn _ _ _ _ _ _ _ (core_fresh _ C) H2) as (F & _).
+    split; auto. split; [apply (frame_transfer T w w1 TI (proj1 TI1) F FI)|].
+    eapply owned_posrel; eauto. apply frame_pos; auto. apply TI1.
+  - (* serialize element *)
+    apply wmap_inv in H as (r0 & H & _). unfold e_serialize in H.
+    destruct (ser_heap _ _ _ _ _ _ _ _ _ _ _) in H; try discriminate. injection H as _ <-. auto.
+Qed.
+
+(* ---------- histories over op2 ---------- *)
+Fixpoint run_ops2 (l : list op2) (w : world) : res world :=
+  match l with
+  | [] => Val w
+  | o :: rest => match run2 o w with Val (_, w') => run_ops2 rest w' | Pan s => Pan s | Fuel => Fuel end
+  end.
+
+Fixpoint steps_ok2 (l : list op2) (w : world) : bool :=
+  match l with
+  | [] => true
+  | o :: rest => step_ok2 w o && match run2 o w with Val (_, w') => steps_ok2 rest w' | _ => true end
+  end.
+
+Theorem inv_histories2_owned l : forall w w', TreeInv w -> FilesInv T w -> FilesOwned w -> steps_ok2 l w = true ->
+  run_ops2 l w = Val w' -> TreeInv w' /\ FilesInv T w' /\ FilesOwned w'.
+Proof.
+  induction l as [|o rest IH]; intros w w' TI FI FO Hok H; cbn [run_ops2 steps_ok2] in *.
+  - injection H as <-. auto.
+  - apply Bool.andb_true_iff in Hok as (Hs & Hok).
+    destruct (run2 o w) as [[r w1]| |] eqn:Er; try discriminate.
+    destruct (step2_inv o w r w1 TI FI FO Hs Er) as (TI1 & FI1 & FO1). apply (IH w1 w'); auto.
+Qed.
+
+Theorem reachable2_owned l w' : steps_ok2 l empty_world = true -> run_ops2 l empty_world = Val w' ->
+  TreeInv w' /\ FilesInv T w' /\ FilesOwned w'.
+Proof. apply inv_histories2_owned; [apply empty_treeinv | apply empty_filesinv | apply empty_owned]. Qed.
+
+End Op2.
